@@ -10,12 +10,22 @@ from ..report import Report
 from ..util import callee_last
 
 SR = 'fggs.semirings'
-CARRIER = {
-    'RealSemiring': ['Z', 'P0_1', 'ONE', 'GT1', 'PINF'],
-    'LogSemiring': ['NINF', 'LT_M1', 'M1', 'M1_0', 'Z', 'P0_1', 'ONE', 'GT1', 'PINF'],
-    'ViterbiSemiring': ['NINF', 'LT_M1', 'M1', 'M1_0', 'Z', 'P0_1', 'ONE', 'GT1', 'PINF'],
-    'BoolSemiring': ['F', 'T'],
-}
+from . import domain as _D
+
+
+def carrier_of(name: str) -> List[str]:
+    """Abstract carrier of a semiring in the current partition."""
+    if name == 'BoolSemiring':
+        return ['F', 'T']
+    num = [c for c in _D.NUM_CLASSES if c != 'NAN']
+    if name == 'RealSemiring':
+        return [c for c in num if _D.class_bounds(c)[0] >= 0]
+    if name in ('LogSemiring', 'ViterbiSemiring'):
+        return num
+    raise KeyError(name)
+
+
+CARRIER = {'RealSemiring', 'LogSemiring', 'ViterbiSemiring', 'BoolSemiring'}
 SUM_FAMILY = {'add': {'sum'}, 'logaddexp': {'logsumexp'}, 'maximum': {'max', 'amax'}, 'logical_or': {'any'}}
 
 
@@ -23,7 +33,7 @@ class Sem:
     def __init__(self, prog: Program, ci: ClassInfo):
         self.prog, self.ci = prog, ci
         self.name = ci.name
-        self.carrier = CARRIER[ci.name]
+        self.carrier = carrier_of(ci.name)
         self.cache: Dict[Tuple, AV] = {}
 
     def method(self, name: str) -> FuncInfo:
@@ -165,9 +175,17 @@ def run_laws(prog: Program, rep: Report, thorough: bool = False) -> None:
 
 
 def below_one(S: Sem, O: str) -> set:
-    if S.name == 'RealSemiring': return {'Z', 'P0_1', 'NINF', 'LT_M1', 'M1', 'M1_0'}
-    if S.name in ('LogSemiring', 'ViterbiSemiring'): return {'NINF', 'LT_M1', 'M1', 'M1_0'}
-    return {'F'}
+    if S.name == 'BoolSemiring':
+        return {'F'}
+    one_v = _D.class_bounds(O)[0]
+    out = set()
+    for c in _D.NUM_CLASSES:
+        if c in ('NAN', O):
+            continue
+        lo, hi = _D.class_bounds(c)
+        if hi <= one_v:
+            out.add(c)
+    return out
 
 
 def add_primitive(S: Sem) -> Optional[str]:
